@@ -45,7 +45,9 @@ CASES = {"quick": 2500, "thorough": 200000}
 RULE = ("(a) models of the C29 grammar family with 1-6 items and strings over a 24-character alphabet of DOT-relevant "
         "characters (lengths 0-30), (b) metamodels of generated grammars (<= 5 rules). non-trivial: (a) some string value "
         "that reaches the export contains a character dot_escape treats, or a mixed list is present; (b) the metamodel has a "
-        "match rule or an abstract class. distinct by canonical JSON")
+        "match rule or an abstract class; (c) metamodels of a main grammar importing 1-2 files (directly or as a chain) with "
+        "rule names from a pool of three; models may reference a builtin Holder object outside the containment tree. "
+        "distinct by canonical JSON")
 ASSUMPTIONS = [
     "file names contain no DOT-relevant characters (the cluster label of multi-file exports is not attacked)",
     "validity is decided by the reference DOT parser; Graphviz's own parser is only a confirmation when /usr/bin/dot exists",
